@@ -134,17 +134,32 @@ def run(ctx, rep):
         off_ok = off[0] == "path" and off[1] == ("arg", 1) and off[2] == ["size"]
         # the read of self.size happens before write_data: the defining statement's block dominates the write_data call and is not after it
         # locate the statement that READS self.size (follow plain copies of locals back to the field read)
-        cur = op_local(t["args"][3])
+        curp = op_place(t["args"][3])
         read_bb = None
-        for _ in range(12):
-            ds = [d for d in AR.defs().get(cur, []) if d[0] == "stmt" and len(d[3]) == 1]
-            if len(ds) != 1 or ds[0][4][0] != "use" or not op_place(ds[0][4][1]):
+        for _ in range(16):
+            if curp is None:
                 break
-            src = op_place(ds[0][4][1])
-            if "size" in place_fields(src):
+            cur = curp[0]
+            proj = [e[1] for e in curp[1:] if isinstance(e, list) and e[0] == "f"]
+            ds = [d for d in AR.defs().get(cur, []) if d[0] == "stmt" and len(d[3]) == 1]
+            if len(ds) != 1:
+                break
+            rv = ds[0][4]
+            if rv[0] == "agg" and rv[1][0] == "tuple" and proj and proj[0] < len(rv[2]):
+                # destructured tuple `let (offset, ..) = (self.size, ..)`: follow the selected component
+                nxt = op_place(rv[2][proj[0]])
+                if nxt is not None and "size" in place_fields(nxt) and nxt[0] == 1:
+                    read_bb = ds[0][1]
+                    break
+                curp = nxt
+                continue
+            if rv[0] != "use" or not op_place(rv[1]):
+                break
+            src = op_place(rv[1])
+            if "size" in place_fields(src) and src[0] == 1:
                 read_bb = ds[0][1]
                 break
-            cur = src[0]
+            curp = src
         before = read_bb is not None and C.dominates(AR, read_bb, wd[0][0]) and (read_bb == wd[0][0] or not C.can_reach(AR, wd[0][0], read_bb))
         rep.check("C08.c", "add_raw/offset", off_ok and before, where=where(AR, ia[0][0]), what="the offset recorded in the index is self.size as it was BEFORE the blob was appended" if off_ok and before else "the recorded offset is not the pack size before appending (offsets in index and header point to the wrong bytes)")
         ln = flow.backward_slice(AR, op_place(t["args"][4]))
